@@ -255,7 +255,7 @@ Qed.
 (** The restriction to recipes WITHOUT mirror in the two vector theorems is necessary: align_vector (and
     align_vector_gradient) ignore the mirror flag, so for a mirror recipe the difference vector x0 - x1 of the
     aligned geometry is not the aligned difference vector.  (The property claims the vector transforms for
-    recipes without mirror only; models/align.py carries a "sensible? TODO" at this place.) *)
+    recipes without mirror only; models/align.py itself marks this place as an open question.) *)
 Theorem C13_vector_rotates_with_frame_under_mirror_refuted :
   exists (m : mill Z) (x y : list (vec3 Z)),
     mirror m = true /\ mmul (mtrans (rot m)) (rot m) = mid /\ is_perm 2 (amap m) /\
